@@ -296,6 +296,30 @@ func TestVerifArgumentsAndStateReuse(t *testing.T) {
 			viol("result-depends-on-argument-layout", "partiallyblindrsa.Signer.BlindSign", "err1", e1, "err2", e2)
 			return
 		}
+		// a server re-using one request buffer: the same metadata slice is
+		// overwritten with OTHER metadata of the same length for the next
+		// request on the same Signer; the answer must be the one a fresh
+		// Signer gives for the new metadata
+		if len(info) > 0 {
+			buf := lib.Clone(info)
+			if _, err := signer.BlindSign(lib.Clone(b1), buf); err == nil {
+				info2 := lib.Clone(info)
+				info2[r.Intn(len(info2))] ^= byte(1 + r.Intn(255))
+				copy(buf, info2)
+				b3, _, e3 := verifier2.FixedBlind(lib.Clone(msg), lib.Clone(info2), lib.Clone(salt), rb.Bytes(), rInv.Bytes())
+				fresh, ef := pbrsa.NewSigner(k.sk, c.h)
+				if e3 == nil && ef == nil {
+					z3, e1 := signer.BlindSign(lib.Clone(b3), buf)
+					z4, e2 := fresh.BlindSign(lib.Clone(b3), lib.Clone(info2))
+					lib.Count("args:pbrsa-metadata-buffer-reused")
+					if (e1 == nil) != (e2 == nil) || !lib.Eq(z3, z4) {
+						viol("result-depends-on-earlier-calls", "partiallyblindrsa.Signer.BlindSign", "err_used_signer", e1, "err_fresh_signer", e2,
+							"history", "BlindSign(b1, buf=metadata1); buf overwritten with metadata2; BlindSign(b3, buf)", "metadata1", info, "metadata2", info2)
+						return
+					}
+				}
+			}
+		}
 		bad := lib.Clone(z1)
 		bad[len(bad)-1-r.Intn(len(bad)/2)] ^= 1 << uint(r.Intn(8))
 		if _, err := st1.Finalize(bad); err == nil {
